@@ -930,7 +930,7 @@ pub fn run(ctx: &mut Ctx) {
 
     // ---------------------------------------------------------------------------------
     // Family R: reference-encoded packets of every type
-    let per_type = ctx.qt(1400u64, 400000u64);
+    let per_type = ctx.qt(8000u64, 400000u64);
     let forms_canon = [LenForm::NewMin];
     for kind in 0..6u64 {
         for i in 0..per_type {
